@@ -111,6 +111,13 @@ package deneb
 //@   requires spec != nil
 //@   ensures r != nil && r.MinSlashingPenaltyQuotient == spec.MIN_SLASHING_PENALTY_QUOTIENT_BELLATRIX && r.ProportionalSlashingMultiplier == spec.PROPORTIONAL_SLASHING_MULTIPLIER_BELLATRIX && r.InactivityPenaltyQuotient == spec.INACTIVITY_PENALTY_QUOTIENT_BELLATRIX
 
+// get_validator_activation_churn_limit (EIP-7514): min(MAX_PER_EPOCH_ACTIVATION_CHURN_LIMIT, get_validator_churn_limit)
+//@ func getValidatorActivationChurnLimit(spec, phase0ChurnLimit) r
+//@   property C02
+//@   opt noalloc
+//@   requires spec != nil
+//@   ensures r == min(spec.MAX_PER_EPOCH_ACTIVATION_CHURN_LIMIT, phase0ChurnLimit)
+
 // BEGIN C18 generated (tools/gen_c18.py in /verif)
 // cancelled: a context cancelled before the call makes it fail; surfaced: a cancellation observed by a poll
 // during the call makes it fail; polled: success after a poll means the context was not cancelled at entry.
@@ -177,7 +184,7 @@ package deneb
 //@   ensures c03_parent: err == nil ==> !st_exhdr_err_deneb(state) && !exhdr_raw_err_deneb(st_exhdr_deneb(state)) && old(body.ExecutionPayload.ParentHash) == old(exhdr_raw_deneb(st_exhdr_deneb(state)).BlockHash)
 
 //@ func ProcessEpochRegistryUpdates(ctx, spec, epc, flats, state) err
-//@   property C18
+//@   property C18 C02
 //@   panics off
 //@   requires ctx != nil
 //@   opt weakcalls
@@ -190,7 +197,26 @@ package deneb
 //@   loop *
 //@     invariant ctx_t >= old(ctx_t) && (old(ctx_seen) || !ctx_seen)
 //@     invariant ctx_t > old(ctx_t) ==> !ctx_cancelled(ctx, old(ctx_t))
-//@   assigns ghost(n_viter), ghost(viter_pos), ghost(viter_reg), ghost(n_val_write), ghost(n_set_exit), ghost(set_exit_v), ghost(set_exit_val), ghost(n_set_wd), ghost(set_wd_v), ghost(set_wd_val)
+//@   opt rangeindex=on
+//@   use ejq_epoch_bound
+//@   assigns ghost(n_aelig_write), ghost(n_set_act), ghost(last_set_act_v), ghost(last_set_act_val)
+//@   ensures c02_ejected: err == nil && old(spec != nil && epc != nil && state != nil && epc.CurrentEpoch != nil && spec.CHURN_LIMIT_QUOTIENT != 0 && (epc.CurrentEpoch.Epoch + 1 + spec.MAX_SEED_LOOKAHEAD) < 4611686018427387904 && len(flats) < 4611686018427387904 && rq_end(flats, (epc.CurrentEpoch.Epoch + 1 + spec.MAX_SEED_LOOKAHEAD), rq_lim(spec.MIN_PER_EPOCH_CHURN_LIMIT, spec.CHURN_LIMIT_QUOTIENT, flats, epc.CurrentEpoch.Epoch)) < 4611686018427387904 && rq_lim(spec.MIN_PER_EPOCH_CHURN_LIMIT, spec.CHURN_LIMIT_QUOTIENT, flats, epc.CurrentEpoch.Epoch) < 4611686018427387904 && (forall a, b :: {reg_val(st_vals(state), a), reg_val(st_vals(state), b)} 0 <= a && a < b && b < len(flats) ==> reg_val(st_vals(state), a) != reg_val(st_vals(state), b))) ==> (forall p :: {reg_val(st_vals(state), p)} 0 <= p && p < len(flats) && reg_eject(flats[p], old(epc.CurrentEpoch.Epoch), spec.EJECTION_BALANCE) ==> v_exit(n_val_write, reg_val(st_vals(state), p)) == old(ejq_epoch(rq_end(flats, (epc.CurrentEpoch.Epoch + 1 + spec.MAX_SEED_LOOKAHEAD), rq_lim(spec.MIN_PER_EPOCH_CHURN_LIMIT, spec.CHURN_LIMIT_QUOTIENT, flats, epc.CurrentEpoch.Epoch)), rq_churn(flats, (epc.CurrentEpoch.Epoch + 1 + spec.MAX_SEED_LOOKAHEAD), rq_lim(spec.MIN_PER_EPOCH_CHURN_LIMIT, spec.CHURN_LIMIT_QUOTIENT, flats, epc.CurrentEpoch.Epoch)), rq_lim(spec.MIN_PER_EPOCH_CHURN_LIMIT, spec.CHURN_LIMIT_QUOTIENT, flats, epc.CurrentEpoch.Epoch), eject_cnt(flats, epc.CurrentEpoch.Epoch, spec.EJECTION_BALANCE, p))) && v_wd(n_wd_write, reg_val(st_vals(state), p)) == old(ejq_epoch(rq_end(flats, (epc.CurrentEpoch.Epoch + 1 + spec.MAX_SEED_LOOKAHEAD), rq_lim(spec.MIN_PER_EPOCH_CHURN_LIMIT, spec.CHURN_LIMIT_QUOTIENT, flats, epc.CurrentEpoch.Epoch)), rq_churn(flats, (epc.CurrentEpoch.Epoch + 1 + spec.MAX_SEED_LOOKAHEAD), rq_lim(spec.MIN_PER_EPOCH_CHURN_LIMIT, spec.CHURN_LIMIT_QUOTIENT, flats, epc.CurrentEpoch.Epoch)), rq_lim(spec.MIN_PER_EPOCH_CHURN_LIMIT, spec.CHURN_LIMIT_QUOTIENT, flats, epc.CurrentEpoch.Epoch), eject_cnt(flats, epc.CurrentEpoch.Epoch, spec.EJECTION_BALANCE, p))) + spec.MIN_VALIDATOR_WITHDRAWABILITY_DELAY)
+//@   ensures c02_not_ejected: err == nil && old(spec != nil && epc != nil && state != nil && epc.CurrentEpoch != nil && spec.CHURN_LIMIT_QUOTIENT != 0 && (epc.CurrentEpoch.Epoch + 1 + spec.MAX_SEED_LOOKAHEAD) < 4611686018427387904 && len(flats) < 4611686018427387904 && rq_end(flats, (epc.CurrentEpoch.Epoch + 1 + spec.MAX_SEED_LOOKAHEAD), rq_lim(spec.MIN_PER_EPOCH_CHURN_LIMIT, spec.CHURN_LIMIT_QUOTIENT, flats, epc.CurrentEpoch.Epoch)) < 4611686018427387904 && rq_lim(spec.MIN_PER_EPOCH_CHURN_LIMIT, spec.CHURN_LIMIT_QUOTIENT, flats, epc.CurrentEpoch.Epoch) < 4611686018427387904 && (forall a, b :: {reg_val(st_vals(state), a), reg_val(st_vals(state), b)} 0 <= a && a < b && b < len(flats) ==> reg_val(st_vals(state), a) != reg_val(st_vals(state), b))) ==> (forall p :: {reg_val(st_vals(state), p)} 0 <= p && p < len(flats) && !reg_eject(flats[p], old(epc.CurrentEpoch.Epoch), spec.EJECTION_BALANCE) ==> v_exit(n_val_write, reg_val(st_vals(state), p)) == old(v_exit(n_val_write, reg_val(st_vals(state), p))) && v_wd(n_wd_write, reg_val(st_vals(state), p)) == old(v_wd(n_wd_write, reg_val(st_vals(state), p))))
+//@   ensures c02_eligible: err == nil && old(spec != nil && epc != nil && state != nil && epc.CurrentEpoch != nil && spec.CHURN_LIMIT_QUOTIENT != 0 && (epc.CurrentEpoch.Epoch + 1 + spec.MAX_SEED_LOOKAHEAD) < 4611686018427387904 && len(flats) < 4611686018427387904 && rq_end(flats, (epc.CurrentEpoch.Epoch + 1 + spec.MAX_SEED_LOOKAHEAD), rq_lim(spec.MIN_PER_EPOCH_CHURN_LIMIT, spec.CHURN_LIMIT_QUOTIENT, flats, epc.CurrentEpoch.Epoch)) < 4611686018427387904 && rq_lim(spec.MIN_PER_EPOCH_CHURN_LIMIT, spec.CHURN_LIMIT_QUOTIENT, flats, epc.CurrentEpoch.Epoch) < 4611686018427387904 && (forall a, b :: {reg_val(st_vals(state), a), reg_val(st_vals(state), b)} 0 <= a && a < b && b < len(flats) ==> reg_val(st_vals(state), a) != reg_val(st_vals(state), b))) ==> (forall p :: {reg_val(st_vals(state), p)} 0 <= p && p < len(flats) && reg_elig(flats[p], spec.MAX_EFFECTIVE_BALANCE) ==> elig_cnt(flats, spec.MAX_EFFECTIVE_BALANCE, p) >= 0 && v_aelig(n_aelig_write, reg_val(st_vals(state), p)) == (old(epc.CurrentEpoch.Epoch) + 1) % 18446744073709551616)
+//@   ensures c02_not_eligible: err == nil && old(spec != nil && epc != nil && state != nil && epc.CurrentEpoch != nil && spec.CHURN_LIMIT_QUOTIENT != 0 && (epc.CurrentEpoch.Epoch + 1 + spec.MAX_SEED_LOOKAHEAD) < 4611686018427387904 && len(flats) < 4611686018427387904 && rq_end(flats, (epc.CurrentEpoch.Epoch + 1 + spec.MAX_SEED_LOOKAHEAD), rq_lim(spec.MIN_PER_EPOCH_CHURN_LIMIT, spec.CHURN_LIMIT_QUOTIENT, flats, epc.CurrentEpoch.Epoch)) < 4611686018427387904 && rq_lim(spec.MIN_PER_EPOCH_CHURN_LIMIT, spec.CHURN_LIMIT_QUOTIENT, flats, epc.CurrentEpoch.Epoch) < 4611686018427387904 && (forall a, b :: {reg_val(st_vals(state), a), reg_val(st_vals(state), b)} 0 <= a && a < b && b < len(flats) ==> reg_val(st_vals(state), a) != reg_val(st_vals(state), b))) ==> (forall p :: {reg_val(st_vals(state), p)} 0 <= p && p < len(flats) && !reg_elig(flats[p], spec.MAX_EFFECTIVE_BALANCE) ==> v_aelig(n_aelig_write, reg_val(st_vals(state), p)) == old(v_aelig(n_aelig_write, reg_val(st_vals(state), p))))
+//@   ensures c02_activation: err == nil && old(spec != nil && epc != nil && state != nil && epc.CurrentEpoch != nil && spec.CHURN_LIMIT_QUOTIENT != 0 && (epc.CurrentEpoch.Epoch + 1 + spec.MAX_SEED_LOOKAHEAD) < 4611686018427387904 && len(flats) < 4611686018427387904 && rq_end(flats, (epc.CurrentEpoch.Epoch + 1 + spec.MAX_SEED_LOOKAHEAD), rq_lim(spec.MIN_PER_EPOCH_CHURN_LIMIT, spec.CHURN_LIMIT_QUOTIENT, flats, epc.CurrentEpoch.Epoch)) < 4611686018427387904 && rq_lim(spec.MIN_PER_EPOCH_CHURN_LIMIT, spec.CHURN_LIMIT_QUOTIENT, flats, epc.CurrentEpoch.Epoch) < 4611686018427387904 && (forall a, b :: {reg_val(st_vals(state), a), reg_val(st_vals(state), b)} 0 <= a && a < b && b < len(flats) ==> reg_val(st_vals(state), a) != reg_val(st_vals(state), b))) ==> n_set_act >= old(n_set_act) && n_set_act - old(n_set_act) <= maybe_cnt(flats, old(epc.CurrentEpoch.Epoch), len(flats)) && (n_set_act > old(n_set_act) ==> last_set_act_val == old((epc.CurrentEpoch.Epoch + 1 + spec.MAX_SEED_LOOKAHEAD)))
+//@   loop 1
+//@     invariant vals == st_vals(state) && n_aelig_write == old(n_aelig_write) && n_set_act == old(n_set_act)
+//@     invariant old(spec != nil && epc != nil && state != nil && epc.CurrentEpoch != nil && spec.CHURN_LIMIT_QUOTIENT != 0 && (epc.CurrentEpoch.Epoch + 1 + spec.MAX_SEED_LOOKAHEAD) < 4611686018427387904 && len(flats) < 4611686018427387904 && rq_end(flats, (epc.CurrentEpoch.Epoch + 1 + spec.MAX_SEED_LOOKAHEAD), rq_lim(spec.MIN_PER_EPOCH_CHURN_LIMIT, spec.CHURN_LIMIT_QUOTIENT, flats, epc.CurrentEpoch.Epoch)) < 4611686018427387904 && rq_lim(spec.MIN_PER_EPOCH_CHURN_LIMIT, spec.CHURN_LIMIT_QUOTIENT, flats, epc.CurrentEpoch.Epoch) < 4611686018427387904 && (forall a, b :: {reg_val(st_vals(state), a), reg_val(st_vals(state), b)} 0 <= a && a < b && b < len(flats) ==> reg_val(st_vals(state), a) != reg_val(st_vals(state), b))) ==> registerData != nil && exitEnd == ejq_epoch(rq_end(flats, (epc.CurrentEpoch.Epoch + 1 + spec.MAX_SEED_LOOKAHEAD), rq_lim(spec.MIN_PER_EPOCH_CHURN_LIMIT, spec.CHURN_LIMIT_QUOTIENT, flats, epc.CurrentEpoch.Epoch)), rq_churn(flats, (epc.CurrentEpoch.Epoch + 1 + spec.MAX_SEED_LOOKAHEAD), rq_lim(spec.MIN_PER_EPOCH_CHURN_LIMIT, spec.CHURN_LIMIT_QUOTIENT, flats, epc.CurrentEpoch.Epoch)), rq_lim(spec.MIN_PER_EPOCH_CHURN_LIMIT, spec.CHURN_LIMIT_QUOTIENT, flats, epc.CurrentEpoch.Epoch), rangeindex + 1) && endChurn == ejq_churn(rq_churn(flats, (epc.CurrentEpoch.Epoch + 1 + spec.MAX_SEED_LOOKAHEAD), rq_lim(spec.MIN_PER_EPOCH_CHURN_LIMIT, spec.CHURN_LIMIT_QUOTIENT, flats, epc.CurrentEpoch.Epoch)), rq_lim(spec.MIN_PER_EPOCH_CHURN_LIMIT, spec.CHURN_LIMIT_QUOTIENT, flats, epc.CurrentEpoch.Epoch), rangeindex + 1) && registerData.ChurnLimit == rq_lim(spec.MIN_PER_EPOCH_CHURN_LIMIT, spec.CHURN_LIMIT_QUOTIENT, flats, epc.CurrentEpoch.Epoch) && endChurn <= registerData.ChurnLimit
+//@     invariant old(spec != nil && epc != nil && state != nil && epc.CurrentEpoch != nil && spec.CHURN_LIMIT_QUOTIENT != 0 && (epc.CurrentEpoch.Epoch + 1 + spec.MAX_SEED_LOOKAHEAD) < 4611686018427387904 && len(flats) < 4611686018427387904 && rq_end(flats, (epc.CurrentEpoch.Epoch + 1 + spec.MAX_SEED_LOOKAHEAD), rq_lim(spec.MIN_PER_EPOCH_CHURN_LIMIT, spec.CHURN_LIMIT_QUOTIENT, flats, epc.CurrentEpoch.Epoch)) < 4611686018427387904 && rq_lim(spec.MIN_PER_EPOCH_CHURN_LIMIT, spec.CHURN_LIMIT_QUOTIENT, flats, epc.CurrentEpoch.Epoch) < 4611686018427387904 && (forall a, b :: {reg_val(st_vals(state), a), reg_val(st_vals(state), b)} 0 <= a && a < b && b < len(flats) ==> reg_val(st_vals(state), a) != reg_val(st_vals(state), b))) ==> (forall j :: {registerData.IndicesToEject[j]} 0 <= j && j <= rangeindex ==> v_exit(n_val_write, reg_val(vals, registerData.IndicesToEject[j])) == ejq_epoch(rq_end(flats, (epc.CurrentEpoch.Epoch + 1 + spec.MAX_SEED_LOOKAHEAD), rq_lim(spec.MIN_PER_EPOCH_CHURN_LIMIT, spec.CHURN_LIMIT_QUOTIENT, flats, epc.CurrentEpoch.Epoch)), rq_churn(flats, (epc.CurrentEpoch.Epoch + 1 + spec.MAX_SEED_LOOKAHEAD), rq_lim(spec.MIN_PER_EPOCH_CHURN_LIMIT, spec.CHURN_LIMIT_QUOTIENT, flats, epc.CurrentEpoch.Epoch)), rq_lim(spec.MIN_PER_EPOCH_CHURN_LIMIT, spec.CHURN_LIMIT_QUOTIENT, flats, epc.CurrentEpoch.Epoch), j) && v_wd(n_wd_write, reg_val(vals, registerData.IndicesToEject[j])) == ejq_epoch(rq_end(flats, (epc.CurrentEpoch.Epoch + 1 + spec.MAX_SEED_LOOKAHEAD), rq_lim(spec.MIN_PER_EPOCH_CHURN_LIMIT, spec.CHURN_LIMIT_QUOTIENT, flats, epc.CurrentEpoch.Epoch)), rq_churn(flats, (epc.CurrentEpoch.Epoch + 1 + spec.MAX_SEED_LOOKAHEAD), rq_lim(spec.MIN_PER_EPOCH_CHURN_LIMIT, spec.CHURN_LIMIT_QUOTIENT, flats, epc.CurrentEpoch.Epoch)), rq_lim(spec.MIN_PER_EPOCH_CHURN_LIMIT, spec.CHURN_LIMIT_QUOTIENT, flats, epc.CurrentEpoch.Epoch), j) + spec.MIN_VALIDATOR_WITHDRAWABILITY_DELAY)
+//@     invariant forall w ValI :: {v_exit(n_val_write, w)} {v_wd(n_wd_write, w)} (forall j :: {registerData.IndicesToEject[j]} 0 <= j && j <= rangeindex ==> reg_val(vals, registerData.IndicesToEject[j]) != w) ==> v_exit(n_val_write, w) == v_exit(old(n_val_write), w) && v_wd(n_wd_write, w) == v_wd(old(n_wd_write), w)
+//@   loop 2
+//@     invariant vals == st_vals(state) && n_set_act == old(n_set_act) && eligibilityEpoch == (epc.CurrentEpoch.Epoch + 1) % 18446744073709551616
+//@     invariant old(spec != nil && epc != nil && state != nil && epc.CurrentEpoch != nil && spec.CHURN_LIMIT_QUOTIENT != 0 && (epc.CurrentEpoch.Epoch + 1 + spec.MAX_SEED_LOOKAHEAD) < 4611686018427387904 && len(flats) < 4611686018427387904 && rq_end(flats, (epc.CurrentEpoch.Epoch + 1 + spec.MAX_SEED_LOOKAHEAD), rq_lim(spec.MIN_PER_EPOCH_CHURN_LIMIT, spec.CHURN_LIMIT_QUOTIENT, flats, epc.CurrentEpoch.Epoch)) < 4611686018427387904 && rq_lim(spec.MIN_PER_EPOCH_CHURN_LIMIT, spec.CHURN_LIMIT_QUOTIENT, flats, epc.CurrentEpoch.Epoch) < 4611686018427387904 && (forall a, b :: {reg_val(st_vals(state), a), reg_val(st_vals(state), b)} 0 <= a && a < b && b < len(flats) ==> reg_val(st_vals(state), a) != reg_val(st_vals(state), b))) ==> (forall j :: {registerData.IndicesToSetActivationEligibility[j]} 0 <= j && j <= rangeindex ==> v_aelig(n_aelig_write, reg_val(vals, registerData.IndicesToSetActivationEligibility[j])) == eligibilityEpoch)
+//@     invariant forall w ValI :: {v_aelig(n_aelig_write, w)} (forall j :: {registerData.IndicesToSetActivationEligibility[j]} 0 <= j && j <= rangeindex ==> reg_val(vals, registerData.IndicesToSetActivationEligibility[j]) != w) ==> v_aelig(n_aelig_write, w) == v_aelig(old(n_aelig_write), w)
+//@   loop 3
+//@     invariant n_set_act >= old(n_set_act) && n_set_act - old(n_set_act) <= rangeindex + 1 && (n_set_act > old(n_set_act) ==> last_set_act_val == activationEpoch)
+//@   assigns ghost(n_viter), ghost(viter_pos), ghost(viter_reg), ghost(n_val_write), ghost(n_wd_write), ghost(n_set_exit), ghost(set_exit_v), ghost(set_exit_val), ghost(n_set_wd), ghost(set_wd_v), ghost(set_wd_val)
 
 //@ func (state *BeaconStateView) ProcessEpoch(ctx, spec, epc) err
 //@   property C18
@@ -209,9 +235,10 @@ package deneb
 //@   assigns ghost(n_set_score)
 //@   assigns ghost(n_biter), ghost(biter_pos), ghost(biter_reg), ghost(n_set_eb)
 //@   assigns ghost(n_set_bal)
+//@   assigns ghost(n_aelig_write), ghost(n_set_act), ghost(last_set_act_v), ghost(last_set_act_val)
 //@   assigns ghost(n_eth1_reset), ghost(n_slash_reset), ghost(last_slash_reset), ghost(n_set_mix), ghost(last_set_mix_epoch), ghost(last_set_mix), ghost(n_hist_update)
 //@   assigns ghost(n_set_prevjust), ghost(set_prevjust), ghost(n_set_curjust), ghost(set_curjust), ghost(n_set_fin), ghost(set_fin), ghost(n_set_jbits), ghost(set_jbits)
-//@   assigns ghost(n_viter), ghost(viter_pos), ghost(viter_reg), ghost(n_val_write), ghost(n_set_exit), ghost(set_exit_v), ghost(set_exit_val), ghost(n_set_wd), ghost(set_wd_v), ghost(set_wd_val)
+//@   assigns ghost(n_viter), ghost(viter_pos), ghost(viter_reg), ghost(n_val_write), ghost(n_wd_write), ghost(n_set_exit), ghost(set_exit_v), ghost(set_exit_val), ghost(n_set_wd), ghost(set_wd_v), ghost(set_wd_val)
 
 //@ func (state *BeaconStateView) ProcessBlock(ctx, spec, epc, benv) err
 //@   property C18
@@ -233,7 +260,7 @@ package deneb
 //@   assigns ghost(n_set_nwi), ghost(set_nwi), ghost(n_set_nwvi), ghost(set_nwvi)
 //@   assigns ghost(n_set_mix), ghost(last_set_mix_epoch), ghost(last_set_mix)
 //@   assigns ghost(n_set_lhdr), ghost(set_lhdr)
-//@   assigns ghost(n_viter), ghost(viter_pos), ghost(viter_reg), ghost(n_val_write), ghost(n_set_exit), ghost(set_exit_v), ghost(set_exit_val), ghost(n_set_wd), ghost(set_wd_v), ghost(set_wd_val)
+//@   assigns ghost(n_viter), ghost(viter_pos), ghost(viter_reg), ghost(n_val_write), ghost(n_wd_write), ghost(n_set_exit), ghost(set_exit_v), ghost(set_exit_val), ghost(n_set_wd), ghost(set_wd_v), ghost(set_wd_val)
 
 //@ func ProcessVoluntaryExits(ctx, spec, epc, state, ops) err
 //@   property C18
@@ -248,6 +275,6 @@ package deneb
 //@   loop *
 //@     invariant ctx_t >= old(ctx_t) && (old(ctx_seen) || !ctx_seen)
 //@     invariant ctx_t > old(ctx_t) ==> !ctx_cancelled(ctx, old(ctx_t))
-//@   assigns ghost(n_viter), ghost(viter_pos), ghost(viter_reg), ghost(n_val_write), ghost(n_set_exit), ghost(set_exit_v), ghost(set_exit_val), ghost(n_set_wd), ghost(set_wd_v), ghost(set_wd_val)
+//@   assigns ghost(n_viter), ghost(viter_pos), ghost(viter_reg), ghost(n_val_write), ghost(n_wd_write), ghost(n_set_exit), ghost(set_exit_v), ghost(set_exit_val), ghost(n_set_wd), ghost(set_wd_v), ghost(set_wd_val)
 
 // END C18 generated
